@@ -111,6 +111,18 @@ func (s *JavaRefactorListener) EnterAnnotation(ctx *AnnotationContext) {
 	node.AddField(field)
 }
 
+// a bare identifier used as an expression: a statically imported field (MAX_VALUE, out) or any other name
+func (s *JavaRefactorListener) EnterPrimary(ctx *PrimaryContext) {
+	if ctx.Identifier() == nil {
+		return
+	}
+
+	startLine := ctx.GetStart().GetLine()
+	stopLine := ctx.GetStop().GetLine()
+	field := model.JField{Name: ctx.Identifier().GetText(), Source: node.Pkg, StartLine: startLine, StopLine: stopLine}
+	node.AddField(field)
+}
+
 func (s *JavaRefactorListener) EnterLambdaParameters(ctx *LambdaParametersContext) {
 	identifiers := ctx.AllIdentifier()
 	for index := range identifiers {
